@@ -1,7 +1,7 @@
 \* repaired design, call level, 2 threads (all interleavings of whole calls, up to renaming of threads / keys of a shard):
 \* every C35 property is an invariant
 CONSTANTS Threads = {t1, t2}  KA = {k1, k2, k3}  KB = {k4}  Cap = 2  MaxCalls = 3  MaxHeld = 2  Fine = FALSE  InitMayFail = TRUE
-          BudgetPages = 3  Ballast = 30  ClearKeepsPinned = TRUE  ReleaseOnInitError = TRUE
+          BudgetPages = 3  Ballast = 30  ClearKeepsPinned = TRUE  ClearCountsUnderLock = TRUE  ReleaseOnInitError = TRUE
 CONSTANT Keys <- KeysAll  ShardOf <- ShardsOneTwo
 SYMMETRY Sym
 SPECIFICATION Spec
